@@ -12,7 +12,6 @@ CONSTANTS
   FragArgs = {1, 60}
 CONSTRAINT SeedBound
 CONSTANT Uids <- QuickUids
-VIEW StateView
 INVARIANTS
   NeverRaw
 CHECK_DEADLOCK FALSE
